@@ -70,6 +70,9 @@ structure FloatTok where
 
 instance : Repr FloatTok := ⟨fun t _ => repr (String.ofList t.tok)⟩
 
+/-- `NaN`, `Infinity`, `-Infinity`: what `allow_nan=False` refuses with a `ValueError` -/
+def FloatTok.nonFinite (t : FloatTok) : Bool := t.tok = nanTok || t.tok = infTok || t.tok = negInfTok
+
 /-! ### JSON values (insertion-ordered objects, string keys) -/
 mutual
 inductive JVal where
@@ -93,6 +96,33 @@ end
 `list` also stands for `tuple` (both are written as arrays); `opaque n` is any object the encoder
 has no rule for (bytes, datetime, timedelta, set, exception instance, user object …): it is known
 only through the oracle `strOf n = str(obj)`. -/
+/-- a dictionary key as json's encoder classifies it (`encoder_listencode_dict`): `str` as itself,
+`float` → its repr token, `True/False/None` → `true/false/null`, `int` → its decimal repr; a key of any
+other type (tuple, bytes, frozenset, user object …) has NO rule – `default=` is never consulted for
+keys – and is a `TypeError` unless `skipkeys=True` drops the member. -/
+inductive PyKey where
+  | str (s : Str)
+  | int (i : Int)
+  | float (t : FloatTok)
+  | bool (b : Bool)
+  | none
+  | other (id : Nat)
+  deriving DecidableEq
+
+/-- the keyword arguments of `json.dumps` that decide WHETHER a value can be encoded and which
+members appear in which order (`ensure_ascii` only changes the text of strings and is passed to
+`dumps` separately) -/
+structure Opts where
+  /-- `default=str` -/
+  useDefault : Bool
+  /-- `sort_keys=` -/
+  sortKeys : Bool
+  /-- `skipkeys=` -/
+  skipKeys : Bool
+  /-- `allow_nan=` -/
+  allowNan : Bool
+  deriving DecidableEq, Repr
+
 mutual
 inductive PyVal where
   | none
@@ -108,8 +138,16 @@ inductive PyList where
   | cons (v : PyVal) (t : PyList)
 inductive PyMembers where
   | nil
-  | cons (k : Str) (v : PyVal) (t : PyMembers)
+  | cons (k : PyKey) (v : PyVal) (t : PyMembers)
 end
+
+/-- what the `except Exception:` clause of `Handler.emit` does with an error raised while formatting,
+serialising or writing: re-raise it into the logging call, or report it on `sys.stderr`
+(`ErrorInterceptor.print`) and drop the record -/
+inductive ErrAction where
+  | reraise
+  | report
+  deriving DecidableEq, Repr
 
 /-- a `datetime.timedelta` (CPython keeps it normalised: any `days`, `0 ≤ seconds < 86400`,
 `0 ≤ microseconds < 10^6`; a negative duration has negative `days`) -/
